@@ -1,1 +1,13 @@
 import Martian.Props.C16
+open Martian.Props.C16
+#print axioms request_fields_equal
+#print axioms response_fields_equal
+#print axioms header_list_includes_host_cl_te
+#print axioms postdata_is_deframed_body
+#print axioms chunk_framing_is_not_body
+#print axioms content_is_decoded_body_with_true_size
+#print axioms capture_follows_options
+#print axioms uncaptured_has_no_body
+#print axioms postdata_json_roundtrip
+#print axioms content_json_roundtrip
+#print axioms logged_content_is_base64
